@@ -13,6 +13,8 @@ pub fn all_sites() -> Vec<(&'static str, SiteFn)> {
         ("FuncGen", site_func as SiteFn),
         ("GlobGen", site_glob as SiteFn),
         ("GatesGen", site_gates as SiteFn),
+        ("FmtGen", site_fmt as SiteFn),
+        ("CmpGen", site_cmp as SiteFn),
     ]
 }
 
@@ -552,5 +554,210 @@ fn site_gates(src: &Path) -> String {
     let pop = if body.contains("dir_queue.pop_front()") { "true" } else if body.contains("dir_queue.pop_back()") { "false" } else { panic!("queue pop not found") };
     let push = if body.contains("dir_queue.push_back(") { "true" } else if body.contains("dir_queue.push_front(") { "false" } else { panic!("queue push not found") };
     writeln!(o, "Definition queue_pop_front : bool := {}.\nDefinition queue_push_back : bool := {}.", pop, push).unwrap();
+    o
+}
+
+// ---------------- E20: output/*.rs literals ----------------
+
+/// `Some("lit".to_owned())` -> Some(lit); `None` -> None; `Some(format!("a{}b", record))` -> Some("a{}b")
+fn opt_literal(e: &Expr) -> Option<String> {
+    match e {
+        Expr::Path(p) if last_seg(&p.path) == "None" => None,
+        Expr::Call(c) => {
+            if let Expr::Path(p) = &*c.func {
+                if last_seg(&p.path) == "Some" && c.args.len() == 1 {
+                    let mut lc = LitCollector { strs: vec![] };
+                    syn::visit::Visit::visit_expr(&mut lc, &c.args[0]);
+                    if lc.strs.len() == 1 {
+                        return Some(lc.strs[0].clone());
+                    }
+                }
+            }
+            panic!("formatter method returns {}", qs(e))
+        }
+        e => panic!("formatter method returns {}", qs(e)),
+    }
+}
+
+fn formatter_method(items: &[Item], ty: &str, m: &str) -> Option<Option<String>> {
+    for it in items {
+        if let Item::Impl(im) = it {
+            if let Some((_, tp, _)) = &im.trait_ {
+                if last_seg(tp) == "ResultsFormatter" && qs(&im.self_ty).replace(' ', "") == ty {
+                    for ii in &im.items {
+                        if let ImplItem::Fn(f) = ii {
+                            if f.sig.ident == m {
+                                if let Some(Stmt::Expr(e, None)) = f.block.stmts.last() {
+                                    if f.block.stmts.len() == 1 {
+                                        return Some(opt_literal(e));
+                                    }
+                                }
+                                return None; // not a literal-returning method (e.g. serde_json / csv writer)
+                            }
+                        }
+                    }
+                    return Some(None); // method not overridden (trait default: None)
+                }
+            }
+        }
+    }
+    panic!("impl ResultsFormatter for {} not found", ty)
+}
+
+fn lit_or_empty(o: &mut String, name: &str, v: Option<Option<String>>) {
+    match v {
+        Some(Some(l)) => writeln!(o, "Definition {} : str := {}.", name, coq_str(&l)).unwrap(),
+        Some(None) => writeln!(o, "Definition {} : str := [].", name).unwrap(),
+        None => panic!("{}: not a literal", name),
+    }
+}
+
+fn site_fmt(src: &Path) -> String {
+    let mut o = String::from(HDR_N);
+    o.push_str("Open Scope N_scope.\n(* from src/output/{json,html,flat,csv}.rs *)\n");
+    let json = read_file(src, "output/json.rs");
+    lit_or_empty(&mut o, "json_header", formatter_method(&json.items, "JsonFormatter", "header"));
+    lit_or_empty(&mut o, "json_footer", formatter_method(&json.items, "JsonFormatter", "footer"));
+    lit_or_empty(&mut o, "json_row_separator", formatter_method(&json.items, "JsonFormatter", "row_separator"));
+    lit_or_empty(&mut o, "json_row_started", formatter_method(&json.items, "JsonFormatter", "row_started"));
+    let html = read_file(src, "output/html.rs");
+    lit_or_empty(&mut o, "html_header", formatter_method(&html.items, "HtmlFormatter", "header"));
+    lit_or_empty(&mut o, "html_footer", formatter_method(&html.items, "HtmlFormatter", "footer"));
+    lit_or_empty(&mut o, "html_row_started", formatter_method(&html.items, "HtmlFormatter", "row_started"));
+    lit_or_empty(&mut o, "html_row_ended", formatter_method(&html.items, "HtmlFormatter", "row_ended"));
+    lit_or_empty(&mut o, "html_row_separator", formatter_method(&html.items, "HtmlFormatter", "row_separator"));
+    // format_element: either format!("<td>{}</td>", record) or an escaping helper; record the literal and
+    // whether the method mentions an escape function
+    let mut elem = None;
+    let mut escapes = false;
+    for it in &html.items {
+        if let Item::Impl(im) = it {
+            for ii in &im.items {
+                if let ImplItem::Fn(f) = ii {
+                    if f.sig.ident == "format_element" {
+                        let mut lc = LitCollector { strs: vec![] };
+                        syn::visit::Visit::visit_block(&mut lc, &f.block);
+                        elem = lc.strs.iter().find(|x| x.contains("{}")).cloned();
+                        escapes = qs(&f.block).contains("escape");
+                    }
+                }
+            }
+        }
+    }
+    let elem = elem.expect("html format_element literal");
+    let (a, b) = elem.split_once("{}").unwrap();
+    writeln!(o, "Definition html_td_open : str := {}.\nDefinition html_td_close : str := {}.", coq_str(a), coq_str(b)).unwrap();
+    writeln!(o, "Definition html_escapes : bool := {}.", escapes).unwrap();
+    let csv = read_file(src, "output/csv.rs");
+    lit_or_empty(&mut o, "csv_header", formatter_method(&csv.items, "CsvFormatter", "header"));
+    lit_or_empty(&mut o, "csv_footer", formatter_method(&csv.items, "CsvFormatter", "footer"));
+    lit_or_empty(&mut o, "csv_row_separator", formatter_method(&csv.items, "CsvFormatter", "row_separator"));
+    // flat.rs constants
+    let flat = read_file(src, "output/flat.rs");
+    for it in &flat.items {
+        if let Item::Const(c) = it {
+            let name = c.ident.to_string();
+            if let Expr::Struct(st) = &*c.expr {
+                let mut rs = None;
+                let mut ls = None;
+                for fv in &st.fields {
+                    let fname = qs(&fv.member);
+                    let mut chars = vec![];
+                    struct CC<'a>(&'a mut Vec<char>);
+                    impl<'a, 'b> syn::visit::Visit<'b> for CC<'a> {
+                        fn visit_lit_char(&mut self, l: &'b LitChar) { self.0.push(l.value()); }
+                    }
+                    syn::visit::Visit::visit_expr(&mut CC(&mut chars), &fv.expr);
+                    if fname == "record_separator" { rs = chars.first().cloned(); }
+                    if fname == "line_separator" { ls = Some(chars.first().cloned()); }
+                }
+                let low = name.to_lowercase().replace("_formatter", "");
+                writeln!(o, "Definition flat_{}_record_separator : N := {}.", low, rs.expect("record_separator") as u32).unwrap();
+                writeln!(o, "Definition flat_{}_line_separator : option N := {}.", low, match ls.expect("line_separator") { Some(c) => format!("Some {}", c as u32), None => "None".to_string() }).unwrap();
+            }
+        }
+    }
+    for m in ["header", "row_started", "footer", "row_separator"] {
+        lit_or_empty(&mut o, &format!("flat_{}", m), formatter_method(&flat.items, "FlatWriter", m));
+    }
+    o
+}
+
+// ---------------- E11: searcher.rs::conforms typed comparison tables ----------------
+
+fn find_match_on<'a>(b: &'a Block, scrut_contains: &str) -> Option<&'a ExprMatch> {
+    let mut mc = MatchCollector { matches: vec![] };
+    syn::visit::Visit::visit_block(&mut mc, b);
+    mc.matches.into_iter().find(|m| qs(&m.expr).replace(' ', "").contains(scrut_contains))
+}
+
+fn pat_idents(p: &Pat, out: &mut Vec<String>) {
+    match p {
+        Pat::Ident(i) => out.push(i.ident.to_string()),
+        Pat::Tuple(t) => for e in &t.elems { pat_idents(e, out) },
+        Pat::Type(t) => pat_idents(&t.pat, out),
+        _ => {}
+    }
+}
+
+fn site_cmp(src: &Path) -> String {
+    let file = read_file(src, "searcher.rs");
+    let f = find_impl_fn(&file.items, "Searcher", "conforms").expect("Searcher::conforms");
+    let mut o = String::from(HDR_N);
+    o.push_str("From FS Require Import gen.OpsGen.\nOpen Scope Z_scope.\n(* from src/searcher.rs, fn conforms: the typed comparison tables *)\n");
+    let tm = find_match_on(&f.block, "field_value.get_type()").expect("match field_value.get_type()");
+    for arm in &tm.arms {
+        let ty = pat_path_last(&arm.pat).unwrap_or_default();
+        if !["Int", "Float", "Bool", "DateTime"].contains(&ty.as_str()) {
+            continue;
+        }
+        let block = match &*arm.body {
+            Expr::Block(b) => &b.block,
+            e => panic!("conforms arm {} is not a block: {}", ty, qs(e)),
+        };
+        // roles of the let-bound names
+        let mut env = Env::new("Z").with("field_value.to_bool()", "x").with("value.to_bool()", "y");
+        let mut nvalue = 0;
+        for st in &block.stmts {
+            if let Stmt::Local(l) = st {
+                let init = l.init.as_ref().map(|i| qs(&i.expr).replace(' ', "")).unwrap_or_default();
+                let mut ids = vec![];
+                pat_idents(&l.pat, &mut ids);
+                if init.contains("field_value") {
+                    for id in &ids { env.vars.insert(id.clone(), "x".to_string()); }
+                } else if init.starts_with("value.") {
+                    // literal side: one name -> y, a pair -> (a, b)
+                    if ids.len() == 1 { env.vars.insert(ids[0].clone(), "y".to_string()); }
+                    else if ids.len() == 2 { env.vars.insert(ids[0].clone(), "a".to_string()); env.vars.insert(ids[1].clone(), "b".to_string()); }
+                    else { panic!("conforms {}: let pattern", ty); }
+                    nvalue += 1;
+                } else {
+                    // re-binding such as `let start = start.and_utc().timestamp();` keeps the role
+                    for id in &ids {
+                        if !init.starts_with(&format!("{}.", id)) { panic!("conforms {}: unexpected binding {} = {}", ty, id, init); }
+                    }
+                }
+            }
+        }
+        let _ = nvalue;
+        let om = find_match_on(block, "op").expect("match op");
+        let mut arms = vec![];
+        for a in &om.arms {
+            let body = ex(&a.body, &env);
+            let pats: Vec<String> = pat_alts(&a.pat).iter().map(|p| match p {
+                Pat::Wild(_) => "_".to_string(),
+                q => format!("Op{}", pat_path_last(q).expect("op pattern")),
+            }).collect();
+            arms.push(format!("| {} => {}", pats.join(" | "), body));
+        }
+        let (name, sig) = match ty.as_str() {
+            "Int" => ("cmp_int", "(x y : Z)"),
+            "Float" => ("cmp_float_as_Z", "(x y : Z)"),
+            "Bool" => ("cmp_boolZ", "(x y : Z)"),
+            _ => ("cmp_dt", "(x a b : Z)"),
+        };
+        writeln!(o, "Definition {} (o : Op) {} : bool :=\n  match o with\n  {}\n  end.", name, sig, arms.join("\n  ")).unwrap();
+    }
+    o.push_str("(* cmp_float_as_Z: the Float arm's table with the operands read as integers (same relation symbols);\n   cmp_boolZ: the Bool arm with false = 0, true = 1 (Rust's bool ordering). *)\n");
     o
 }
